@@ -9,7 +9,17 @@ package remote
 
 import (
 	"context"
+	"crypto/ecdsa"
+	"crypto/elliptic"
+	"crypto/rand"
+	"crypto/sha256"
+	"crypto/tls"
+	"crypto/x509"
+	"crypto/x509/pkix"
+	"encoding/hex"
 	"errors"
+	"math/big"
+	"time"
 	"fmt"
 	"net"
 	"sort"
@@ -33,7 +43,49 @@ const (
 	v5TLS
 )
 
+// a private CA and a leaf for *.example.invalid signed by it: the chain a server
+// presents when its TLSA record names the CA (DANE-TA, usage 2), where RFC 7672
+// section 3.2.3 makes the name check part of the match
+var v5TaChain *tls.Certificate
+var v5TaPin string
+
+func v5MkTa() {
+	if v5TaChain != nil {
+		return
+	}
+	mk := func(tmpl, parent *x509.Certificate, parentKey *ecdsa.PrivateKey) (*x509.Certificate, *ecdsa.PrivateKey) {
+		key, err := ecdsa.GenerateKey(elliptic.P256(), rand.Reader)
+		if err != nil {
+			panic(err)
+		}
+		signer, signerKey := tmpl, key
+		if parent != nil {
+			signer, signerKey = parent, parentKey
+		}
+		der, err := x509.CreateCertificate(rand.Reader, tmpl, signer, &key.PublicKey, signerKey)
+		if err != nil {
+			panic(err)
+		}
+		c, err := x509.ParseCertificate(der)
+		if err != nil {
+			panic(err)
+		}
+		return c, key
+	}
+	nb, na := time.Date(2015, 1, 1, 0, 0, 0, 0, time.UTC), time.Date(2045, 1, 1, 0, 0, 0, 0, time.UTC)
+	ca, caKey := mk(&x509.Certificate{SerialNumber: big.NewInt(7001), Subject: pkix.Name{CommonName: "verif private CA"},
+		NotBefore: nb, NotAfter: na, BasicConstraintsValid: true, IsCA: true,
+		KeyUsage: x509.KeyUsageDigitalSignature | x509.KeyUsageCertSign}, nil, nil)
+	leaf, leafKey := mk(&x509.Certificate{SerialNumber: big.NewInt(7002), Subject: pkix.Name{CommonName: "verif leaf"},
+		NotBefore: nb, NotAfter: na, BasicConstraintsValid: true, DNSNames: []string{"*.example.invalid"},
+		KeyUsage: x509.KeyUsageDigitalSignature, ExtKeyUsage: []x509.ExtKeyUsage{x509.ExtKeyUsageServerAuth}}, ca, caKey)
+	v5TaChain = &tls.Certificate{Certificate: [][]byte{leaf.Raw, ca.Raw}, PrivateKey: leafKey}
+	sum := sha256.Sum256(ca.RawSubjectPublicKeyInfo)
+	v5TaPin = hex.EncodeToString(sum[:])
+}
+
 type v5MX struct {
+	ta bool // the server presents the private-CA chain and its TLSA record is a DANE-TA pin of that CA
 	kind    int
 	goodName bool // the name matches the certificate (*.example.invalid)
 	dane    string // DNone DLookupFail DMatch DMismatch DUnusable
@@ -97,6 +149,7 @@ func TestVerif_C05(t *testing.T) {
 			if pDane {
 				m.dane = []string{"DNone", "DLookupFail", "DMatch", "DMismatch", "DUnusable", "DMatch", "DNone"}[r.intn(7)]
 			}
+			taWanted := pDane && (ci+3*i)%5 == 0 // chosen without drawing, so earlier histories keep their shape
 			// a first candidate that earns the MX level or has harmless TLSA records and then
 			// fails fast, followed by one that must be judged on its own
 			if nMX == 2 && bias {
@@ -116,6 +169,13 @@ func TestVerif_C05(t *testing.T) {
 				m.kind, m.goodName = v5TLS, false
 				if i == 1 && r.chance(30) {
 					m.goodName = true
+				}
+			}
+			if taWanted && m.kind == v5TLS {
+				m.ta = true
+				m.dane = "DMismatch"
+				if m.goodName {
+					m.dane = "DMatch"
 				}
 			}
 			m.ip = fmt.Sprintf("127.0.0.%d", i+1)
@@ -139,7 +199,13 @@ func TestVerif_C05(t *testing.T) {
 				be, s := testutils.SMTPServer(t, m.ip+":"+smtpPort)
 				srvs[i] = &srvT{be, s}
 			case v5TLS:
-				cfg, be, s := testutils.SMTPServerSTARTTLS(t, m.ip+":"+smtpPort, func(s *smtp.Server) { s.EnableREQUIRETLS = m.reqtls })
+				cfg, be, s := testutils.SMTPServerSTARTTLS(t, m.ip+":"+smtpPort, func(s *smtp.Server) {
+					s.EnableREQUIRETLS = m.reqtls
+					if m.ta {
+						v5MkTa()
+						s.TLSConfig = &tls.Config{Certificates: []tls.Certificate{*v5TaChain}}
+					}
+				})
 				clientCfg = cfg
 				srvs[i] = &srvT{be, s}
 			}
@@ -152,10 +218,22 @@ func TestVerif_C05(t *testing.T) {
 			mxrecs = append(mxrecs, net.MX{Host: m.host + ".", Pref: uint16(10 * (i + 1))})
 			zones[m.host+"."] = mockdns.Zone{AD: true, A: []string{m.ip}}
 			tl := "_25._tcp." + m.host + "."
+			switch {
+			case m.ta:
+				v5MkTa()
+				zones[tl] = mockdns.Zone{AD: true, Misc: tlsaRecord(tl, 2, 1, 1, v5TaPin)}
+				stats["dane_ta_"+m.dane]++
+			}
 			switch m.dane {
 			case "DMatch":
+				if m.ta {
+					break
+				}
 				zones[tl] = mockdns.Zone{AD: true, Misc: tlsaRecord(tl, 3, 1, 1, "a9b5cb4d02f996f6385debe9a8952f1af1f4aec7eae0f37c2cd6d0d8ee8391cf")}
 			case "DMismatch":
+				if m.ta {
+					break
+				}
 				zones[tl] = mockdns.Zone{AD: true, Misc: tlsaRecord(tl, 3, 1, 1, "ffb5cb4d02f996f6385debe9a8952f1af1f4aec7eae0f37c2cd6d0d8ee8391cf")}
 			case "DUnusable":
 				zones[tl] = mockdns.Zone{AD: true, Misc: tlsaRecord(tl, 9, 1, 1, "a9b5cb4d02f996f6385debe9a8952f1af1f4aec7eae0f37c2cd6d0d8ee8391cf")}
@@ -232,7 +310,7 @@ func TestVerif_C05(t *testing.T) {
 				sts = "StsNone"
 			}
 			return fmt.Sprintf("{| f_dial := %s; f_starttls := %s; f_tls_breaks := false; f_cert_ok := %s; f_sts := %s; f_dane := %s; f_reqtls_ext := %s |}",
-				cBool(m.kind != v5Down), cBool(m.kind == v5TLS), cBool(m.kind == v5TLS && m.goodName), sts, m.dane, cBool(m.kind == v5TLS && m.reqtls))
+				cBool(m.kind != v5Down), cBool(m.kind == v5TLS), cBool(m.kind == v5TLS && m.goodName && !m.ta), sts, m.dane, cBool(m.kind == v5TLS && m.reqtls))
 		}
 		var cands []string
 		for _, m := range mxs {
